@@ -181,8 +181,25 @@ func run(bin, tmp string, id int, c config) result {
 	res.before = snapshot(dir)
 	var cmd *exec.Cmd
 	if c.Fault != "" {
-		f := strings.Split(c.Fault, ":")
-		sargs := []string{"-f", "-qq", "-o", "/dev/null", "-e", "trace=" + f[0], "-e", fmt.Sprintf("inject=%s:error=%s:when=%s", f[0], f[1], f[2]), bin}
+		// one or two faults: "<call>:<errno>:<k>[+<call>:<errno>:<k>]"
+		sargs := []string{"-f", "-qq", "-o", "/dev/null"}
+		traced := map[string]bool{}
+		var injects []string
+		for _, one := range strings.Split(c.Fault, "+") {
+			f := strings.Split(one, ":")
+			traced[f[0]] = true
+			injects = append(injects, fmt.Sprintf("inject=%s:error=%s:when=%s", f[0], f[1], f[2]))
+		}
+		var calls []string
+		for k := range traced {
+			calls = append(calls, k)
+		}
+		sort.Strings(calls)
+		sargs = append(sargs, "-e", "trace="+strings.Join(calls, ","))
+		for _, in := range injects {
+			sargs = append(sargs, "-e", in)
+		}
+		sargs = append(sargs, bin)
 		cmd = exec.Command("strace", append(sargs, args...)...)
 	} else {
 		cmd = exec.Command(bin, args...)
@@ -475,6 +492,31 @@ func main() {
 					c.Fault = fmt.Sprintf("%s:%s:%d", call, e, k)
 					do(c)
 				}
+			}
+		}
+	}
+	// thorough: every unordered pair of fault points of different kinds for the first base configuration
+	if !quick && len(faultBases) > 0 {
+		base := faultBases[0]
+		counts := syscallCounts(bin, tmp, base)
+		type pt struct {
+			call string
+			k    int
+		}
+		var pts []pt
+		for _, call := range []string{"mkdirat", "openat", "write", "newfstatat"} {
+			for k := 1; k <= counts[call]; k++ {
+				pts = append(pts, pt{call, k})
+			}
+		}
+		for i := range pts {
+			for j := i + 1; j < len(pts); j++ {
+				if pts[i].call == pts[j].call {
+					continue // strace numbers the calls of one kind jointly: two rules on one call would interfere
+				}
+				c := base
+				c.Fault = fmt.Sprintf("%s:EIO:%d+%s:ENOSPC:%d", pts[i].call, pts[i].k, pts[j].call, pts[j].k)
+				do(c)
 			}
 		}
 	}
